@@ -66,7 +66,7 @@ CHECKS.update({
     "C20": dict(
         technique="Coq proof that, for an arbitrary per-entry ignore verdict, the walker returns exactly the entries with no ignored ancestor-or-self + differential test against `git check-ignore` and against reference matchers of Docker's and Mercurial's rules, over root spellings and option/config/no-override",
         text="C20_pruning_spec / C20_pruning_walk / C20_pruning_walk_bfs hold for every tree and every verdict function over model/Walk.v. On every run git repositories, docker build contexts and Mercurial repositories with generated ignore files are searched with the root spelled '.', relative, absolute or as a sub-directory (ignore file in the root or an ancestor), with the option given, taken from the configuration, overridden, or with only another tool enabled; rows must be the entries the tool does not ignore (git check-ignore; direct recursive matchers transcribing moby patternmatcher and hgignore(5)) and must equal the model fed those verdicts.",
-        note="Partial: libgit2's matcher is not modelled (verdicts are inputs); the Docker / Mercurial converters (rewritten by fix commits 8f57929, ccd81bf, 554a7aa) are compared with the reference matchers by the differential test, their Coq model is in progress. Known finding F53: Docker re-includes an entry below an excluded directory, fselect prunes the directory.",
+        note="Partial: libgit2's matcher is not modelled (verdicts are inputs); the Docker / Mercurial converters (rewritten by fix commits 8f57929, ccd81bf, 554a7aa) are modelled in model/Ignore.v (C20_docker_file, C20_hg_glob_file, C20_hg_regexp_*, C20_directory_path_is_literal hold for every ignore line and path) and compared on every run with the real filters (regex text and verdicts) and with reference matchers written from the tools' documentation. Known finding F53: Docker re-includes an entry below an excluded directory, fselect prunes the directory.",
         design="6 C20"),
     "C10": dict(
         technique="Coq model of the lexer and the recursive-descent parser (tables regenerated from the source) with PROVED totality: the lexer's iteration bound and, for every token list and argument vector, the parser ends in a query or a status-2 diagnostic - never a panic site, never out of its own fuel + differential test of outcome, error message and whole AST against the real lexer/parser, and of exit status / panic / hang on the binary",
